@@ -156,8 +156,11 @@ class Env:
         self.mutable = set()
         self.params = {}
         body = fn_hir["body"]
+        self.mut_params = set()
         for p in fn_hir.get("params", []):
             self._bind_params(p["pat"])
+            if str(p.get("ty", "")).startswith("&mut") and p["pat"].get("k") == "PBind":
+                self.mut_params.add(p["pat"]["id"])
         for n, _ in walk(body):
             k = n.get("k")
             if k == "SLet" and n.get("init") is not None:
@@ -190,7 +193,7 @@ class Env:
             if "Mut" in pat.get("mode", "") and "Not)" not in pat.get("mode", ""):
                 self.mutable.add(pat["id"])
                 return      # `let mut x`: never substituted (its value may change, also through &mut self calls)
-            if not refutable:
+            if not refutable and not self._reads_mutable_state(init):
                 self.defs[pat["id"]] = init
         elif k == "PTuple":
             i0 = strip(init)
@@ -206,6 +209,16 @@ class Env:
                         comp = dict(i0)
                         comp["arms"] = [dict(a, body=strip(a["body"])["elems"][idx]) for a in i0["arms"]]
                         self._bind(p, comp, refutable)
+
+    def _reads_mutable_state(self, init):
+        """A value computed from a `&mut` parameter may differ between its definition and a later use
+        (the referent is mutated in between), so such lets are kept as opaque variables."""
+        if not self.mut_params:
+            return False
+        for n, _ in walk(init):
+            if n.get("k") == "Path" and n["to"].get("res") == "local" and n["to"]["id"] in self.mut_params:
+                return True
+        return False
 
     def is_single(self, lid):
         return lid in self.defs and self.assigned.get(lid, 0) == 0
@@ -338,7 +351,7 @@ class Sym:
         if k == "If":
             return ("if", s(n["cond"]), s(n["then"]), s(n.get("else")))
         if k == "Let":
-            return ("let", pat_key(n["pat"]), s(n["init"]))
+            return ("let", pat_key(n["pat"]), s(n["init"]), tuple(pat_names(n["pat"])))
         if k == "Closure":
             return ("closure", tuple(p.get("name", "_") for p in n.get("params", [])), s(n["body"]))
         if k == "Block":
@@ -437,6 +450,14 @@ def guards_of(target, root, sym):
             for i in range(len(chain) - 1):
                 p, c = chain[i], chain[i + 1]
                 k = p.get("k")
+                if k in ("Block", "Loop"):
+                    # statements before `c` of the form `if C { continue/break/return }` : c runs only if !C
+                    for st in p.get("stmts") or ():
+                        if st is c:
+                            break
+                        s0 = strip(st)
+                        if s0.get("k") == "If" and s0.get("else") is None and diverges(s0["then"]):
+                            out.append(("if", sym(s0["cond"]), False))
                 if k == "If":
                     if c is p.get("then"):
                         for a in conj(sym(p["cond"])):
@@ -457,6 +478,57 @@ def guards_of(target, root, sym):
                     out.append(("if", sym(p["l"]), False))
             return out
     return None
+
+
+def diverges(b):
+    """Does this block always leave (continue / break / return / panic)?"""
+    b = strip(b)
+    if b.get("k") in ("Continue", "Break", "Ret"):
+        return True
+    if b.get("k") == "Block":
+        last = b.get("expr")
+        if last is None and b.get("stmts"):
+            last = b["stmts"][-1]
+        if last is None:
+            return False
+        return diverges(last)
+    if b.get("k") == "Call" and (callee_of(b) or "").startswith(("core::panicking", "std::rt::begin_panic", "std::process::exit")):
+        return True
+    return False
+
+
+COMMUTATIVE = {"==", "!=", "+", "*", "&&", "||", "&", "|", "^"}
+FLIP = {">": "<", ">=": "<="}
+
+
+def canon(t):
+    """Order-insensitive form: operands of commutative operators sorted, a > b rewritten as b < a."""
+    if not isinstance(t, tuple):
+        return t
+    t = tuple(canon(x) if isinstance(x, tuple) else x for x in t)
+    if t and t[0] == "bin":
+        op, a, b = t[1], t[2], t[3]
+        if op in FLIP:
+            op, a, b = FLIP[op], b, a
+        if op in COMMUTATIVE and _ckey(b) < _ckey(a):
+            a, b = b, a
+        return ("bin", op, a, b)
+    return t
+
+
+def _ckey(t):
+    """Sort key: expressions first, then enum variants, then literals (`x == 7`, `p.owner != Player::White`)."""
+    rank = 2 if (isinstance(t, tuple) and t and t[0] == "lit") else 1 if (isinstance(t, tuple) and t and t[0] in ("variant", "const")) else 0
+    return (rank, repr(t))
+
+
+def subst(t, m):
+    """Replace sub-terms according to dict m."""
+    if not isinstance(t, tuple):
+        return t
+    if t in m:
+        return m[t]
+    return tuple(subst(x, m) if isinstance(x, tuple) else x for x in t)
 
 
 def match_table(m, sym=None, facts=None):
@@ -869,7 +941,7 @@ def fold(t, assume, discr=None):
         if h == "index":
             return ("index", f(t[1]), f(t[2]))
         if h == "closure":
-            return t
+            return ("closure", t[1], f(t[2]))
         return (h,) + tuple(f(x) if isinstance(x, tuple) else x for x in t[1:])
 
     r = f(t)
